@@ -217,9 +217,8 @@ func runC14(c *Collector) {
 	caps := []int{0, 1, 2, 3}
 	names := 3
 	maxStates := 400000
-	if c.job.Tier == "quick" {
-		names = 2
-		caps = []int{0, 1, 2}
+	if c.job.Tier != "quick" {
+		caps = []int{0, 1, 2, 3, 4}
 	}
 	c.res.Engine = "B (explicit-state BFS over the real FileCache on MemFS; successor = replay of the shortest history + 1 op on a fresh cache; canonical states; search to fixpoint)"
 	c.res.Rule = "states = exact cache state (capacity, LRU order with handle ids renumbered by first occurrence, reference counts, removed map, lent list); ops Open/Close(matched)/Remove/Clear/SetCacheSize from every New(capacity); invariants after every op: lent handles open and readable, refs = lent count >= 0, every descriptor not lent/cached/pending is closed exactly once, open descriptors <= capacity + lent, no panic; non-trivial = transitions taken with at least one handle lent"
